@@ -93,7 +93,32 @@ class C11(Check):
             for i in range(5):
                 for variant in (0, 1):
                     out.append(("baits", bpt, i, variant, tier))
+        from mc.checks import c03_cli
+
+        out += c03_cli.shards(tier)
         return out
+
+    def cli_extra(self, case, files, pvspec, ctx):
+        """numbers in the log line and info.yaml against the reference counter applied to the files written"""
+        from mc.checks import c03_cli
+
+        got = c03_cli.check_c11_files(case, files, ctx)
+        if not got or got[0] is None:
+            return
+        (cuts, breaks, joins), info = got
+        out_rows = []
+        for name, data in files.items():
+            if name.endswith(".agp"):
+                out_rows += [rows for _n, rows in c03_cli.parse_agp_rows(data.decode())]
+        nin = sum(1 for _, rows in c03_cli.INP for r in rows if r[0] == "F")
+        nout = sum(1 for rows in out_rows for r in rows if r[0] == "F")
+        j_in = junction_set(rows for _, rows in c03_cli.INP)
+        j_out = junction_set(out_rows)
+        want = (nout - nin, len(j_in - j_out), len(j_out - j_in))
+        if (cuts, breaks, joins) != want:
+            ctx.violation("log-line-miscounts", case, f"log says cuts,breaks,joins={(cuts, breaks, joins)} files say {want}")
+        if "manual_breaks" in info and (info["manual_breaks"], info["manual_joins"]) != want[1:]:
+            ctx.violation("yaml-miscounts", case, f"yaml {info!r} files say {want}")
 
     def run_case(self, inp, pvspec, ctx, kind):
         case = [kind, pv.jsonable(inp), pv.jsonable(pvspec)]
@@ -126,6 +151,10 @@ class C11(Check):
 
     def run_shard(self, shard, ctx):
         kind = shard[0]
+        if kind == "cli":
+            from mc.checks import c03_cli
+
+            return c03_cli.run_shard(self, shard, ctx, validate_only=True, extra=self.cli_extra)
         if kind in ("baits", "tags"):
             chk = c01.CHECK
             saved = chk.run_case
@@ -157,6 +186,10 @@ class C11(Check):
             ctx.sample({"input": pv.jsonable(inp), "pretext": pv.jsonable(pv.make_pv(bpt, pieces, next(iter(pv.arrangements(len(pieces)))), None))})
 
     def replay(self, case, ctx):
+        if case[0] == "cli":
+            from mc.checks import c03_cli
+
+            return c03_cli.replay(self, case, ctx, validate_only=True, extra=self.cli_extra)
         kind, inp, pvspec = case
         self.run_case(pv.tuplify(inp), (pvspec[0], pv.tuplify(pvspec[1])), ctx, kind)
 
